@@ -10,6 +10,8 @@ import json
 import math
 import re
 
+from . import messages
+
 from . import impl
 from .text import s as cps2s
 
@@ -350,6 +352,7 @@ ERR_CLASS = {'query execution': 'runtime', 'query parsing': 'parsing', 'IO handl
 _rec_no = re.compile(r'[Rr]ecord (\d+)')
 _afield = re.compile(r'"a(\d+)"')
 _bindex = re.compile(r'index (\d+)')
+_bfield = re.compile(r'"b(\d+)"')       # another way of naming the missing field of a join-table record
 
 
 def project_error(eng, e):
@@ -365,6 +368,10 @@ def project_error(eng, e):
         m = _bindex.search(msg)
         if m and 'B' in msg:
             fld_ = -int(m.group(1))
+        else:
+            m = _bfield.search(msg)
+            if m:
+                fld_ = -int(m.group(1))
     return {'cls': cls, 'nr': nr, 'fld': fld_, 'msg': msg[:200], 'pyclass': type(e).__name__}
 
 
@@ -451,6 +458,7 @@ def make_recorders(eng):
     return RecIterator, RecWriter, Registry
 
 
+_quoted_name = re.compile(r'"(\w+)"')
 _WARN_RAG = re.compile(r'"(\w+)" table is not consistent: e\.g\. record (\d+) -> (\d+) fields, record (\d+) -> (\d+) fields')
 
 
@@ -490,9 +498,10 @@ def run_case_py(mods, case, query_text, endless_cap=0):
     obs['warnings'] = warnings
     rag = []
     for w in warnings:
-        m = _WARN_RAG.search(w)
-        if m:
-            rag.append([m.group(1)] + [int(x) for x in m.groups()[1:]])
+        k = messages.classify_warning(w)
+        if k[0] == 'ragged':
+            label = _quoted_name.search(w)
+            rag.append([label.group(1) if label else ''] + k[1])
     obs['ragged'] = rag
     return obs
 
@@ -577,6 +586,10 @@ def js_observation(resp):
             mm = _bindex.search(msg)
             if mm and 'B' in msg:
                 fld_ = -int(mm.group(1))
+            else:
+                mm = _bfield.search(msg)
+                if mm:
+                    fld_ = -int(mm.group(1))
         obs['err'] = {'cls': JS_ERR.get(e['cls'], e['cls']), 'nr': int(m.group(1)) if m else 0, 'fld': fld_, 'msg': msg[:200]}
     else:
         hdr = resp.get('header')
